@@ -206,6 +206,28 @@ def check(ctx):
                                     ctx.fail("oracle", "C06/oracle/float32-forces", f"{P.sc['name']} orders {orders}: forces given as float32 are fitted differently from the same numbers given as float64 "
                                              f"(relative deviation {dev:.2e}); the float64 fit satisfies the normal equations to rounding, so the float32 one does not",
                                              replay={**P.describe(), "orders": list(orders), "disps": d.tolist(), "forces_float32": f32.astype(float).tolist(), "deviation": dev}, has_input=True)
+                        # displacements on an integer grid typed int64 (the constructor keeps the array as given): the fit must be the one
+                        # of the same numbers typed float64 (R14-K2: forces cast to the displacement dtype); a design that the rounding
+                        # makes rank deficient raises and is skipped
+                        if kind == "over" and bs == 100:
+                            di = np.rint(d * 40).astype(np.int64)
+                            pair = []
+                            for dd in (di, di.astype(np.float64)):
+                                oi = P.new(dd, f)
+                                try:
+                                    solve_with_batch(oi, P, orders, False, bs)
+                                    pair.append({m: np.array(oi.force_constants[m]) for m in orders})
+                                except (np.linalg.LinAlgError, ValueError, RuntimeError, IndexError, ZeroDivisionError, TypeError):
+                                    pair.append(None)
+                            ctx.count("integer-displacement-twin")
+                            Xi = dense_design(P.basis, orders, di.astype(float))
+                            svi = np.linalg.svd(Xi, compute_uv=False)
+                            if pair[0] is not None and pair[1] is not None and svi[-1] >= 1e-3 * svi[0]:
+                                dev = max(float(np.abs(pair[0][m] - pair[1][m]).max() / max(np.abs(pair[1][m]).max(), 1e-300)) for m in orders)
+                                if dev > 1e-8:
+                                    ctx.fail("oracle", "C06/oracle/integer-displacements", f"{P.sc['name']} orders {orders}: displacements given as int64 are fitted differently from the same numbers given as float64 "
+                                             f"(relative deviation {dev:.2e}); the float64 fit satisfies the normal equations to rounding, so the int64 one does not",
+                                             replay={**P.describe(), "orders": list(orders), "disps_int64": di.tolist(), "forces": f.tolist(), "deviation": dev}, has_input=True)
                         if not rel <= 1e-7:
                             key = f"C06/oracle/normal-eq/{kind}"
                             ctx.fail("oracle", key, f"{P.sc['name']} orders {orders} data '{kind}' ({d.shape[0]} snapshots, {ncoef} coefficients, batch_size {bs}): "
